@@ -443,6 +443,31 @@ def run(ctx):
                 ctx.fail("UMAP.fit:raises:reused_tables", "%r / %r / %r" % (first["exc"], again["exc"], fresh["exc"]), dict(X=Xs, n_neighbors=k_))
         except Exception as e:  # pragma: no cover
             ctx.notes.append("reused-tables probe failed: %r" % (e,))
+    # a SPARSE precomputed distance matrix as input (its own branch of fit): tables wider than n_neighbors must give the graph of their
+    # first n_neighbors columns there as well
+    import scipy.sparse as sp_
+    for rep in range(2 if ctx.tier == "quick" else 6):
+        try:
+            n_ = rng.choice([24, 36]); k_ = rng.choice([4, 6])
+            Xs, ix, ds = make_data(rng, npr, n_, k_ + 4)
+            Dm = np.sqrt(((Xs.astype(np.float64)[:, None] - Xs.astype(np.float64)[None]) ** 2).sum(-1)).astype(np.float32)
+            Ds = sp_.csr_matrix(Dm)
+            wide = fit(Ds.copy(), (ix[:, : k_ + 3].copy(), ds[:, : k_ + 3].astype(np.float32).copy()), k_, bool(rep % 2), metric="precomputed")
+            firstk = fit(Ds.copy(), (ix[:, :k_].copy(), ds[:, :k_].astype(np.float32).copy()), k_, bool(rep % 2), metric="precomputed")
+            ctx.tag(("sparse_pre", rep, n_, k_), ["sparse_precomputed_input_with_wide_tables"])
+            ctx.evaluations += 1
+            desc_ = dict(X="csr_matrix of the euclidean distance matrix of Xs", Xs=Xs, knn_indices=ix[:, : k_ + 3], knn_dists=ds[:, : k_ + 3], n_neighbors=k_, metric="precomputed")
+            if wide["exc"] is None and firstk["exc"] is None:
+                md, sup = gdiff(wide["graph"], firstk["graph"])
+                if md > 1e-5 or not sup:
+                    ctx.fail("UMAP.fit.graph_:extra_columns_not_pruned:sparse_precomputed_input", "sparse precomputed distances: graph from %d supplied columns differs from the graph of "
+                             "their first %d columns by %.3g (nnz %d vs %d)" % (k_ + 3, k_, md, wide["graph"].nnz, firstk["graph"].nnz), desc_)
+            elif (wide["exc"] is None) != (firstk["exc"] is None):
+                ctx.fail("UMAP.fit:raises:sparse_precomputed_input", "wide tables: %r / first-k tables: %r" % (wide["exc"], firstk["exc"]), desc_)
+            else:
+                ctx.notes.append("sparse precomputed input with tables is rejected by fit either way: %r" % (wide["exc"],))
+        except Exception as e:  # pragma: no cover
+            ctx.notes.append("sparse-precomputed probe failed: %r" % (e,))
     # observation (reported, not a clause of the property): n_neighbors vs _n_neighbors when n <= n_neighbors
     try:
         Xs, ix, ds = make_data(rng, npr, 10, 6)
@@ -455,7 +480,7 @@ def run(ctx):
     except Exception as e:  # pragma: no cover
         ctx.notes.append("n = n_neighbors probe failed: %r" % (e,))
     return ctx.finish(RULE, assumptions=["tables are exact euclidean kNN tables without near-ties (so 'the exact tables' are unambiguous); k < n on the grid",
-                                           "the sparse-precomputed branch of fit is modelled but not exercised; NNDescent objects only by their presence",
+                                           "the sparse-precomputed branch of fit is modelled and probed with wide tables (graph of the first n_neighbors columns); NNDescent objects only by their presence",
                                            "graph construction itself (C01, C02) is an arbitrary function in the theorems"])
 
 
